@@ -62,6 +62,13 @@ func (r *rw) expr(e ast.Expr) ast.Expr {
 			r.needShim = true
 			return call(sel("vsched", "Close"), r.expr(x.Args[0]))
 		}
+		// dialer.Dial(network, addr) -> vsched.Dial(dialer, network, addr): the harness supplies the connection
+		if se, ok := x.Fun.(*ast.SelectorExpr); ok && se.Sel.Name == "Dial" && len(x.Args) == 2 {
+			if id, ok := se.X.(*ast.Ident); ok && id.Name == "dialer" {
+				r.needShim = true
+				return call(sel("vsched", "Dial"), id, r.expr(x.Args[0]), r.expr(x.Args[1]))
+			}
+		}
 		x.Fun = r.expr(x.Fun)
 		for i := range x.Args {
 			x.Args[i] = r.expr(x.Args[i])
